@@ -15,3 +15,12 @@ Fixpoint failing_gen {C} (model_ok spec_ok : C -> bool) (start : nat) (cs : list
       if m && s then failing_gen model_ok spec_ok (S start) t
       else (start, (m, s)) :: failing_gen model_ok spec_ok (S start) t
   end.
+
+(* [spec_check] returns None when the case is outside the property's
+   quantifier (nothing is claimed), Some b when it was judged. *)
+Definition ok_of (o : option bool) : bool := match o with Some b => b | None => true end.
+Fixpoint count_judged_gen {C} (spec_check : C -> option bool) (cs : list C) : nat :=
+  match cs with
+  | [] => 0
+  | c :: t => (match spec_check c with Some _ => 1 | None => 0 end) + count_judged_gen spec_check t
+  end.
